@@ -2,7 +2,9 @@
 //
 //	crash work    -dir D -wl W.json -crashat N -trace T   run the workload through FaultFS; os.Exit(77)
 //	                                                      right before the N-th crash point (N=0: never)
-//	crash recover -dir D -wl W.json -out R.json           reopen, dump, run maintenance, dump again
+//	crash recover -dir D -wl W.json -out R.json           reopen, dump, run maintenance (flush, compactions,
+//	                                                      two value-log GC passes, close/reopen), dump after
+//	                                                      each stage and list the value-log files
 //
 // A crash point is every mutating file operation the engine performs (the repo's own FaultFS calls
 // the hook before each one) and every "crash.*" yield point (places invisible to the VFS because the
@@ -17,7 +19,9 @@ import (
 	"fmt"
 	"io"
 	"log"
+	"math"
 	"os"
+	"sort"
 	"strings"
 	"sync"
 	"sync/atomic"
@@ -36,7 +40,7 @@ type W struct {
 }
 
 type Op struct {
-	Op     string `json:"op"` // Write | Rotate | FlushWait | Compact | GC | Reopen
+	Op     string `json:"op"` // Write | Rotate | FlushWait | Compact | GC | Reopen | HoldFlush | ReleaseFlush
 	Writes []W    `json:"w,omitempty"`
 	Kind   string `json:"kind,omitempty"`
 	Level  int    `json:"level,omitempty"`
@@ -55,11 +59,11 @@ type Workload struct {
 
 var (
 	listPoints bool
-	points  int64
-	crashAt int64
-	traceF  *os.File
-	lastWal atomic.Value // name of the WAL segment opened last (segment switches are visible to the VFS)
-	rots    int64        // memtable rotations started so far (lsm.rotate yield point)
+	points     int64
+	crashAt    int64
+	traceF     *os.File
+	lastWal    atomic.Value // name of the WAL segment opened last (segment switches are visible to the VFS)
+	rots       int64        // memtable rotations started so far (lsm.rotate yield point)
 )
 
 func curWal() string {
@@ -67,6 +71,191 @@ func curWal() string {
 		return v
 	}
 	return ""
+}
+
+// ---- stalled flush: HoldFlush parks the NEXT flush task that reaches the "lsm.flush" yield point (the
+// oldest sealed memtable: tasks are handed out in sealing order) until ReleaseFlush. With the code's single
+// flush worker every younger memtable queues behind it; any additional worker would overtake it.
+var hold struct {
+	mu    sync.Mutex
+	armed bool
+	ch    chan struct{}
+}
+
+func installHold() {
+	prev := utils.VerifHook
+	utils.VerifHook = func(p string, a ...uint64) {
+		if p == "lsm.flush" {
+			hold.mu.Lock()
+			var ch chan struct{}
+			if hold.armed {
+				hold.armed = false
+				hold.ch = make(chan struct{})
+				ch = hold.ch
+			}
+			hold.mu.Unlock()
+			if ch != nil {
+				<-ch
+			}
+		}
+		if prev != nil {
+			prev(p, a...)
+		}
+	}
+}
+
+func holdFlush() {
+	hold.mu.Lock()
+	if hold.ch == nil {
+		hold.armed = true
+	}
+	hold.mu.Unlock()
+}
+
+func releaseFlush() {
+	hold.mu.Lock()
+	hold.armed = false
+	if hold.ch != nil {
+		close(hold.ch)
+		hold.ch = nil
+	}
+	hold.mu.Unlock()
+}
+
+// ---- value-log layout (only facts the real engine reports; used for workload selection and evidence)
+func vfiles(db *NoKV.DB) map[string][]uint32 {
+	out := map[string][]uint32{}
+	files, _ := db.VerifVlogFiles()
+	for b, fids := range files {
+		fs := append([]uint32{}, fids...)
+		sort.Slice(fs, func(i, j int) bool { return fs[i] < fs[j] })
+		out[fmt.Sprint(b)] = fs
+	}
+	return out
+}
+
+// where the LSM currently points for key k: [bucket, fid, offset], nil when the value is inline or absent
+func locate(db *NoKV.DB, k string) []uint32 {
+	e, err := db.VerifLSM().Get(kv.InternalKey(kv.CFDefault, []byte(k), math.MaxUint64))
+	if err != nil || e == nil {
+		return nil
+	}
+	defer e.DecrRef()
+	if e.Meta&kv.BitValuePointer == 0 || e.Meta&kv.BitDelete != 0 {
+		return nil
+	}
+	var vp kv.ValuePtr
+	vp.Decode(e.Value)
+	return []uint32{vp.Bucket, vp.Fid, vp.Offset}
+}
+
+// one GC pass over every sealed value-log file (snapshot of the file lists taken first, as RunValueLogGC's
+// candidates are); returns per file what rewrite reported and whether the file is gone afterwards
+func gcPass(db *NoKV.DB) []map[string]any {
+	var res []map[string]any
+	files, active := db.VerifVlogFiles()
+	bs := make([]uint32, 0, len(files))
+	for b := range files {
+		bs = append(bs, b)
+	}
+	sort.Slice(bs, func(i, j int) bool { return bs[i] < bs[j] })
+	for _, b := range bs {
+		fids := append([]uint32{}, files[b]...)
+		sort.Slice(fids, func(i, j int) bool { return fids[i] < fids[j] })
+		for _, fid := range fids {
+			if fid >= active[b] {
+				continue
+			}
+			err := db.VerifGCRewrite(b, fid)
+			gone := true
+			now, _ := db.VerifVlogFiles()
+			for _, f := range now[b] {
+				if f == fid {
+					gone = false
+				}
+			}
+			es := ""
+			if err != nil {
+				es = err.Error()
+			}
+			res = append(res, map[string]any{"b": b, "f": fid, "err": es, "gone": gone})
+		}
+	}
+	return res
+}
+
+// bucketsOf maps every key of the universe to its value-log bucket
+func bucketsOf(w *Workload) map[string]uint32 {
+	nb := uint32(max(w.Cfg.Buckets, 1))
+	out := map[string]uint32{}
+	for _, k := range w.Keys {
+		out[k] = kv.ValueLogBucket(kv.InternalKey(kv.CFDefault, []byte(k), math.MaxUint64), nb)
+	}
+	return out
+}
+
+// whereErr reports, for every key whose read failed, each source of the LSM that holds the key in lookup
+// order (memtables, L0 newest first, ingest buffers, levels) with its version, its value pointer and
+// whether that pointer's value-log file still exists. Plain facts for classifying a failure: a key that
+// is unreadable although another source holds a resolvable copy under the same version is shadowed, not lost.
+func whereErr(db *NoKV.DB, d map[string]string) map[string][]map[string]any {
+	var out map[string][]map[string]any
+	for k, v := range d {
+		if !strings.HasPrefix(v, "ERR:") {
+			continue
+		}
+		files, _ := db.VerifVlogFiles()
+		var srcs []map[string]any
+		for _, src := range db.VerifLSM().VerifLocate(kv.CFDefault, []byte(k)) {
+			m := map[string]any{"kind": src.Kind, "level": src.Level, "id": src.ID, "ver": fmt.Sprint(src.Version), "del": src.Meta&kv.BitDelete != 0}
+			if src.Meta&kv.BitValuePointer != 0 && src.Meta&kv.BitDelete == 0 {
+				var vp kv.ValuePtr
+				vp.Decode(src.Value)
+				ok := false
+				for _, f := range files[vp.Bucket] {
+					if f == vp.Fid {
+						ok = true
+					}
+				}
+				m["ptr"], m["ok"] = []uint32{vp.Bucket, vp.Fid, vp.Offset}, ok
+			}
+			srcs = append(srcs, m)
+		}
+		if out == nil {
+			out = map[string][]map[string]any{}
+		}
+		out[k] = srcs
+	}
+	return out
+}
+
+// seal writes filler keys (never part of the workload's key universe) until the value-log file that
+// was active in each bucket has been rotated away
+func seal(db *NoKV.DB, w *Workload) {
+	_, before := db.VerifVlogFiles()
+	nb := uint32(len(before))
+	vl := vlen(w, Op{})
+	for n := 0; n < 400; n++ {
+		_, now := db.VerifVlogFiles()
+		done := true
+		for b, f := range before {
+			if now[b] <= f {
+				done = false
+			}
+		}
+		if done {
+			return
+		}
+		k := []byte(fmt.Sprintf("~fill%03d", n))
+		b := uint32(0)
+		if nb > 1 {
+			b = kv.ValueLogBucket(kv.InternalKey(kv.CFDefault, k, math.MaxUint64), nb)
+		}
+		if now[b] > before[b] {
+			continue
+		}
+		_ = db.Set(k, eng.Expand("fill", vl))
+	}
 }
 
 var emitMu sync.Mutex
@@ -176,13 +365,34 @@ func work(dir, wl, trace string) {
 			point(p)
 		}
 	})
+	installHold()
 	r := &eng.Runner{Dir: dir, Cfg: w.Cfg, FS: fs}
 	utils.VerifPause("compaction", true)
 	eng.SetGated(false)
 	db := NoKV.Open(r.Opts())
 	r.DB = db
+	emit(map[string]any{"e": "B", "buckets": bucketsOf(w)})
+	layout := func(i int, op Op) {
+		if !listPoints || crashAt != 0 {
+			return
+		}
+		ptrs := map[string][]uint32{}
+		for _, x := range op.Writes {
+			ptrs[x.K] = locate(db, x.K)
+		}
+		_, active := db.VerifVlogFiles()
+		act := map[string]uint32{}
+		for b, f := range active {
+			act[fmt.Sprint(b)] = f
+		}
+		emit(map[string]any{"e": "L", "i": i, "ptrs": ptrs, "files": vfiles(db), "active": act, "rot": atomic.LoadInt64(&rots)})
+	}
 	for i, op := range w.Ops {
 		switch op.Op {
+		case "HoldFlush":
+			holdFlush()
+		case "ReleaseFlush":
+			releaseFlush()
 		case "Write":
 			if w.Par && w.Mode != "txn" && len(op.Writes) > 1 {
 				// independent single-key writes issued at the same time: one coalesced commit batch
@@ -219,24 +429,23 @@ func work(dir, wl, trace string) {
 		case "Rotate":
 			db.VerifLSM().Rotate()
 		case "FlushWait":
+			releaseFlush()
 			r.WaitFlushIdle()
 		case "Compact":
 			_ = db.VerifLSM().VerifCompact(op.Kind, op.Level, op.Base)
 		case "GC":
-			files, active := db.VerifVlogFiles()
-			for b, fids := range files {
-				for _, fid := range fids {
-					if fid < active[b] {
-						_ = db.VerifGCRewrite(b, fid)
-					}
-				}
-			}
+			emit(map[string]any{"e": "G", "i": i, "res": gcPass(db), "files": vfiles(db)})
 		case "Reopen":
+			releaseFlush()
 			_ = db.Close()
 			db = NoKV.Open(r.Opts())
 			r.DB = db
 		}
+		if op.Op == "Write" {
+			layout(i, op)
+		}
 	}
+	releaseFlush()
 	_ = db.Close()
 	emit(map[string]any{"e": "Done", "points": atomic.LoadInt64(&points)})
 }
@@ -311,30 +520,80 @@ func recoverCmd(dir, wl, outp string) {
 		r.DB = db
 		d1, x1 := dump(db, w)
 		res["dump1"], res["extra1"] = d1, x1
+		if wh := whereErr(db, d1); wh != nil {
+			res["where_dump1"] = wh
+		}
 		// C11: background work on the recovered database must not change the contents
 		db.VerifLSM().Rotate()
 		r.WaitFlushIdle()
 		d2, _ := dump(db, w)
 		res["dump_flush"] = d2
+		if wh := whereErr(db, d2); wh != nil {
+			res["where_dump_flush"] = wh
+		}
 		for _, c := range [][2]any{{"l0", 0}, {"ingest-keep", 1}, {"ingest-drain", 1}, {"regular", 1}, {"l0", 0}} {
 			_ = db.VerifLSM().VerifCompact(c[0].(string), c[1].(int), 1)
 		}
-		files, active := db.VerifVlogFiles()
-		for b, fids := range files {
-			for _, fid := range fids {
-				if fid < active[b] {
-					_ = db.VerifGCRewrite(b, fid)
-				}
-			}
+		dc, _ := dump(db, w)
+		res["dump_compact"] = dc
+		if wh := whereErr(db, dc); wh != nil {
+			res["where_dump_compact"] = wh
 		}
+		// value-log GC, twice: the first pass over a file with live values re-inserts them (and, as the
+		// code stands, leaves the file in place); only the next pass finds it dead and removes it
+		vf := map[string]any{"open": vfiles(db)}
+		gc1 := gcPass(db)
 		d3, x3 := dump(db, w)
 		res["dump_maint"], res["extra_maint"] = d3, x3
+		if wh := whereErr(db, d3); wh != nil {
+			res["where_dump_maint"] = wh
+		}
+		vf["gc1"] = vfiles(db)
+		gc2 := gcPass(db)
+		d5, x5 := dump(db, w)
+		res["dump_gc2"], res["extra_gc2"] = d5, x5
+		if wh := whereErr(db, d5); wh != nil {
+			res["where_dump_gc2"] = wh
+		}
+		vf["gc2"] = vfiles(db)
+		res["gc"] = [][]map[string]any{gc1, gc2}
 		if err := db.Close(); err != nil {
 			res["close_err"] = err.Error()
 		}
+		// reopen AFTER the GC: the manifest's tombstones and heads are reconciled with the files
 		db = NoKV.Open(r.Opts())
 		d4, x4 := dump(db, w)
 		res["dump_reopen"], res["extra_reopen"] = d4, x4
+		if wh := whereErr(db, d4); wh != nil {
+			res["where_dump_reopen"] = wh
+		}
+		vf["reopen"] = vfiles(db)
+		// New client writes to OTHER keys (outside the key universe) seal every active value-log file, so
+		// that GC also scans the file that was active at the crash: leftover records of an interrupted
+		// write live there. The universe's keys must still read the same.
+		if w.Cfg.Vlog {
+			seal(db, w)
+			gc3 := gcPass(db)
+			gc4 := gcPass(db)
+			d6, x6 := dump(db, w)
+			res["dump_seal_gc"], res["extra_seal_gc"] = d6, x6
+			if wh := whereErr(db, d6); wh != nil {
+				res["where_dump_seal_gc"] = wh
+			}
+			vf["seal_gc"] = vfiles(db)
+			res["gc"] = [][]map[string]any{gc1, gc2, gc3, gc4}
+			if err := db.Close(); err != nil {
+				res["close_err2"] = err.Error()
+			}
+			db = NoKV.Open(r.Opts())
+			d7, x7 := dump(db, w)
+			res["dump_reopen2"], res["extra_reopen2"] = d7, x7
+			if wh := whereErr(db, d7); wh != nil {
+				res["where_dump_reopen2"] = wh
+			}
+			vf["reopen2"] = vfiles(db)
+		}
+		res["vfiles"] = vf
 		_ = db.Close()
 	}()
 	finish()
